@@ -24,7 +24,8 @@ def runOne (kind : String) (de dx gx body : Option Exc) : String :=
   let φ : Faults := fun a => match a with | .dispEnter => de | .dispExit => dx | .groupExit => gx | _ => none
   let (en, ex) := if kind == "A" then (aenter, aexit) else if kind == "S" then (senter, sexit) else (uenter, uexit)
   let r := block en ex φ body id m0
-  s!"restored={if r.1.ctx = m0.ctx then 1 else 0} exc={showExc r.2}"
+  let saw (o : Option (Option Exc)) : String := match o with | none => "." | some e => showExc e
+  s!"restored={if r.1.ctx = m0.ctx then 1 else 0} gsaw={saw r.1.groupSaw} exc={showExc r.2}"
 
 def runBlock (spec : String) : String :=
   match Driver.words spec with
@@ -45,7 +46,7 @@ def showProc : Proc → String
   | .atom a => s!"(atom {repr a})"
   | .seq p q => s!"(seq {showProc p} {showProc q})"
   | .tryFinally p q => s!"(tryFinally {showProc p} {showProc q})"
-  | .tryExcept p h => s!"(tryExcept {showProc p} {showProc h})"
+  | .tryExcept all p h => s!"(tryExcept {all} {showProc p} {showProc h})"
   | .skip => "skip"
 
 def runCase (line : String) : String :=
